@@ -80,6 +80,7 @@ package sod
 //@ ghost lo int := i
 //@ ensures [C02 eq.window] 0 <= lo && lo+len(result) <= len(in.Index)
 //@ ensures [C02 C13 eq.positional] forall(y, 0, len(result), result[y] == in.Index[lo+y])
+//@ ensures [C02 eq.inverse] forall(x, lo, lo+len(result), result[x-lo] == in.Index[x])
 //@ ensures [C02 eq.iff] forall(x, 0, len(in.Index), keq(in.Index[x].Value, value.Value) == (lo <= x && x < lo+len(result)))
 //@ ensures [C20 eq.view-or-fresh] fresh(arr(result)) || (arr(result) == arr(in.Index) && off(result) == off(in.Index)+lo) || len(result) == 0
 //@ modifies nothing
@@ -100,6 +101,7 @@ package sod
 //@ ensures [C02 ne.window] 0 <= lo && 0 <= cnt && lo+cnt <= len(in.Index) && len(f) == len(in.Index)-cnt
 //@ ensures [C02 C13 ne.positional-left] forall(y, 0, lo, f[y] == in.Index[y])
 //@ ensures [C02 C13 ne.positional-right] forall(y, lo, len(f), f[y] == in.Index[y+cnt])
+//@ ensures [C02 ne.inverse] forall(x, 0, len(in.Index), imp(x < lo || x >= lo+cnt, f[ite(x < lo, x, x-cnt)] == in.Index[x]))
 //@ ensures [C02 ne.iff] forall(x, 0, len(in.Index), keq(in.Index[x].Value, value.Value) == (lo <= x && x < lo+cnt))
 //@ ensures [C20 ne.fresh] fresh(arr(f))
 //@ modifies nothing
@@ -119,6 +121,7 @@ package sod
 //@ requires [pre] idxPre(in, value)
 //@ ensures [C02 lt.split] len(result) <= len(in.Index) && split(in, value.Value, len(in.Index)-len(result))
 //@ ensures [C02 C13 lt.positional] forall(y, 0, len(result), result[y] == in.Index[len(in.Index)-len(result)+y])
+//@ ensures [C02 lt.inverse] forall(x, len(in.Index)-len(result), len(in.Index), result[x-(len(in.Index)-len(result))] == in.Index[x])
 //@ ensures [C20 lt.view-or-fresh] fresh(arr(result)) || (arr(result) == arr(in.Index) && off(result) == off(in.Index)+len(in.Index)-len(result))
 //@ modifies nothing
 //@ allocates Elem[*indexedField]
@@ -142,6 +145,7 @@ package sod
 //@ requires [pre] idxPre(in, value)
 //@ ensures [C02 le.len] len(result) <= len(in.Index)
 //@ ensures [C02 C13 le.positional] forall(y, 0, len(result), result[y] == in.Index[len(in.Index)-len(result)+y])
+//@ ensures [C02 le.inverse] forall(x, len(in.Index)-len(result), len(in.Index), result[x-(len(in.Index)-len(result))] == in.Index[x])
 //@ ensures [C02 le.iff] forall(x, 0, len(in.Index), (x >= len(in.Index)-len(result)) == !klt(value.Value, in.Index[x].Value))
 //@ ensures [C20 le.view-or-fresh] fresh(arr(result)) || (arr(result) == arr(in.Index) && off(result) == off(in.Index)+len(in.Index)-len(result))
 //@ loop 1 invariant [bounds] -1 <= i && i < len(in.Index) || (i == -1 && len(in.Index) == 0)
@@ -188,7 +192,7 @@ package sod
 //@ ensures [C02 nif.fresh] result0 != nil && fresh(result0) && result0.ObjectId == objid
 //@ ensures [C02 C19 nif.supported] (result1 == nil) == supported(value)
 //@ ensures [C02 nif.norm] imp(result1 == nil, result0.Value == norm(value) && ordv(result0.Value))
-//@ ensures [C19 nif.class] imp(result1 != nil, errIs(result1, ErrUnknownKeyType) && !errIs(result1, ErrConstraintUnique))
+//@ ensures [C19 nif.class] imp(result1 != nil, errIs(result1, ErrUnknownKeyType) && !errIs(result1, ErrConstraintUnique) && !errIs(result1, ErrFieldNotIndexed))
 //@ modifies nothing
 //@ allocates indexedField.Value, indexedField.ObjectId, Elem[interface{}]
 
@@ -197,7 +201,7 @@ package sod
 //@ ensures [C02 sf.fresh] k != nil && fresh(k)
 //@ ensures [C02 C19 sf.supported] (err == nil) == supported(value)
 //@ ensures [C02 sf.norm] imp(err == nil, k.Value == norm(value) && ordv(k.Value))
-//@ ensures [C19 sf.class] imp(err != nil, errIs(err, ErrUnknownKeyType) && !errIs(err, ErrConstraintUnique))
+//@ ensures [C19 sf.class] imp(err != nil, errIs(err, ErrUnknownKeyType) && !errIs(err, ErrConstraintUnique) && !errIs(err, ErrFieldNotIndexed))
 //@ modifies nothing
 //@ allocates indexedField.Value, indexedField.ObjectId, Elem[interface{}]
 
@@ -296,6 +300,7 @@ package sod
 //@ ghost w garray[uint64]int := w
 //@ ensures [C20 con.fresh] new != nil && fresh(new) && fresh(new.objectIds) && fresh(arr(new.Index))
 //@ ensures [C02 C13 con.wf] wfField(new)
+//@ ensures [C02 con.rank] imp(len(new.Index) > 0, len(in.Index) > 0 && rank(new.Index[0].Value) == rank(in.Index[0].Value))
 //@ ensures [C02 con.subset] forallk(id, uint64, imp(has(new.objectIds, id), has(in.objectIds, id) && new.objectIds[id] == in.objectIds[id]))
 //@ ensures [C02 con.only] forallk(id, uint64, imp(has(new.objectIds, id), 0 <= w[id] && w[id] < len(fields) && fields[w[id]].ObjectId == id && trig(w[id])))
 //@ ensures [C02 con.complete] forall(x, 0, len(fields), imp(has(in.objectIds, fields[x].ObjectId), has(new.objectIds, fields[x].ObjectId)))
@@ -412,6 +417,7 @@ package sod
 //@ ghost dst garray[int]int := dst
 //@ ensures [C19 rx.err] (err == nil) == (!isVStr(value.Value) || validPattern(vstr(value.Value)))
 //@ ensures [C19 rx.err-empty] imp(err != nil || !isVStr(value.Value), len(out) == 0)
+//@ ensures [C12 rx.class] imp(err != nil, !errIs(err, ErrFieldNotIndexed))
 //@ ensures [C02 rx.sound] imp(err == nil && isVStr(value.Value), forall(y, 0, len(out), 0 <= src[y] && src[y] < len(in.Index) && out[y] == in.Index[src[y]] && rmatch(vstr(value.Value), vstr(out[y].Value))))
 //@ ensures [C02 C13 rx.order] imp(err == nil && isVStr(value.Value), forall(y, 0, len(out), forall(z, y+1, len(out), touch(out[y]) && touch(out[z]) && src[y] < src[z])))
 //@ ensures [C02 rx.complete] imp(err == nil && isVStr(value.Value), forall(x, 0, len(in.Index), imp(rmatch(vstr(value.Value), vstr(in.Index[x].Value)), 0 <= dst[x] && dst[x] < len(out) && out[dst[x]] == in.Index[x])))
@@ -1581,3 +1587,40 @@ package sod
 //@ loop 2 invariant [frame] preserved(Cell[*DB], Cell[*Schema], Cell[time.Duration], Schema.object, Schema.AsyncWrites)
 //@ loop 2 invariant [state] lockFree() && wfDB(*db) && *s != nil && allocated(*s) && (*s).object != nil && imp((*s).AsyncWrites != nil, allocated((*s).AsyncWrites)) && forallk(t, string, imp(has((*db).schemas, t), t == stypeOf(dyntype((*s).object))))
 //@ modifies Ghost.CTX, Ghost.ACQ_H, Ghost.FSk, Ghost.FSc, MapDom[string,Object], MapCard[string,Object], Async.routineStarted, MapDom[string,*Schema], MapVal[string,*Schema], MapCard[string,*Schema]
+
+// ---- search evaluation (C02, C12, C19) ----------------------------------------------------
+
+//@ func (*indexedField).evaluate
+//@ serves C02 C12 C19
+//@ requires [samekind] f != nil && other != nil && ordv(f.Value) && ordv(other.Value) && rank(f.Value) == rank(other.Value)
+//@ requires [C19 known-operator] knownOp(operator)
+//@ ensures [C02 C12 eval.iff] result == opmatch(operator, f.Value, other.Value)
+//@ modifies nothing
+
+//@ func fieldPath
+//@ serves C02 C19
+//@ ensures [fp.key] pathkey(result) == path && len(result) >= 1
+//@ modifies nothing
+//@ allocates Elem[string]
+
+//@ func (*objIndex).search
+//@ serves C02 C12 C13 C19 C20
+//@ requires [wf] wfIndex(in) && o != nil && dyntype(o) == in.otype
+//@ requires [constrain] imp(constrain != nil, forall(x, 0, len(constrain), constrain[x] != nil && allocated(constrain[x])) && forall(a, 0, len(constrain), forall(b, a+1, len(constrain), constrain[a].ObjectId != constrain[b].ObjectId)))
+//@ let fi *fieldIndex := in.Fields[field]
+//@ let k interface{} := norm(value)
+//@ ensures [C19 os.unknown-field] imp(!fieldok(in.otype, field), errIs(result1, ErrUnkownField))
+//@ ensures [C19 os.unsupported-value] imp(fieldok(in.otype, field) && !supported(value), errIs(result1, ErrUnknownKeyType))
+//@ ensures [C12 os.not-indexed] imp(fieldok(in.otype, field) && supported(value) && !has(in.Fields, field), errIs(result1, ErrFieldNotIndexed))
+//@ ensures [C19 os.mistyped] imp(fieldok(in.otype, field) && supported(value) && has(in.Fields, field) && castRank(fi.Cast) != rank(k), errIs(result1, ErrCasting))
+//@ ensures [C19 os.unknown-operator] imp(fieldok(in.otype, field) && supported(value) && has(in.Fields, field) && castRank(fi.Cast) == rank(k) && !knownOp(operator), errIs(result1, ErrUnkownSearchOperator))
+//@ ensures [C02 C19 os.ok-iff] (result1 == nil) == (fieldok(in.otype, field) && supported(value) && has(in.Fields, field) && castRank(fi.Cast) == rank(k) && knownOp(operator) && imp(operator == "~=" && isVStr(k), validPattern(vstr(k))))
+//@ ensures [C19 os.error-empty] imp(result1 != nil, len(result0) == 0)
+//@ ensures [C12 os.indexed-only] imp(errIs(result1, ErrFieldNotIndexed), fieldok(in.otype, field) && supported(value) && !has(in.Fields, field))
+//@ ensures [C02 os.sound] imp(result1 == nil, forall(y, 0, len(result0), result0[y] != nil && has(fi.objectIds, result0[y].ObjectId) && fi.objectIds[result0[y].ObjectId] == result0[y] && opmatch(operator, result0[y].Value, k) && imp(constrain != nil, exists(x, 0, len(constrain), constrain[x].ObjectId == result0[y].ObjectId))))
+//@ ensures [C02 os.complete] imp(result1 == nil, forallk(id, uint64, imp(has(fi.objectIds, id) && opmatch(operator, fi.objectIds[id].Value, k) && (constrain == nil || exists(x, 0, len(constrain), constrain[x].ObjectId == id)), exists(y, 0, len(result0), result0[y].ObjectId == id))))
+//@ ensures [C02 os.distinct] imp(result1 == nil, forall(y, 0, len(result0), forall(z, y+1, len(result0), result0[y].ObjectId != result0[z].ObjectId)))
+//@ ensures [C13 os.order] imp(result1 == nil, forall(y, 0, len(result0), forall(z, y+1, len(result0), !klt(result0[y].Value, result0[z].Value))))
+//@ ensures [C20 os.fresh] imp(result1 == nil, fresh(arr(result0)) || len(result0) == 0)
+//@ modifies nothing
+//@ allocates Elem[*indexedField], Elem[string], Elem[interface{}], indexedField.Value, indexedField.ObjectId, fieldIndex.Name, fieldIndex.Cast, fieldIndex.Constraints, fieldIndex.Index, fieldIndex.objectIds, fieldIndex.nameSplit, fieldIndex.pos, MapDom[uint64,*indexedField], MapVal[uint64,*indexedField], MapCard[uint64,*indexedField]
